@@ -42,9 +42,9 @@ def run(ctx):
     left = _sweep(binary)
 
     def post(agg):
-        wl = agg["sets"].get("worklist_hash(all shards must agree)", set())
-        if len(wl) > 1:
-            agg["inconclusive"].append(dict(why="shards built different work lists: %s" % sorted(wl), case=None, child="plan"))
+        for k, wl in agg["sets"].items():
+            if k.startswith("worklist_hash:") and len(wl) > 1:
+                agg["inconclusive"].append(dict(why="shards built different work lists (%s): %s" % (k, sorted(wl)), case=None, child="plan"))
         if left:
             agg["inconclusive"].append(dict(why="stray socketace processes had to be killed after the run: %s" % left, case=None, child="plan"))
 
